@@ -66,42 +66,63 @@ class _Prefixed:
 
 
 def safe_sqrt(ctx):
+    """The derivative rule registered for Math.safe_sqrt, interpreted on symbolic (x, v) in the three situations x > 0, x = 0, x < 0
+    (optilint.tensoreval; the predicate of the selection is decided at the situation's sample, values stay symbolic): it must return
+    (sqrt(x), v/(2 sqrt(x))) for x > 0 (also for a tiny x = 1e-300) and (sqrt(x), 0) otherwise -- whatever the selection is written with (lax.cond, where, nested defs ...)."""
     rule = "W1/T5-safe-sqrt-rule"
-    r = ctx.need("optimism.Math:safe_sqrt_jvp")
-    conds = [c for c in ast.walk(r.node) if isinstance(c, ast.Call) and (dotted(c.func) or "").endswith("lax.cond")]
-    ok = False
-    shown = "?"
-    fname = dfname = None
-    if len(conds) == 1 and len(conds[0].args) >= 4:
-        c = conds[0]
-        test, tb, fb, op = c.args[:4]
-        shown = src(c)
-        A = Algebra()
-        okt = isinstance(test, ast.Compare) and isinstance(test.ops[0], ast.LtE) and const_value(test.comparators[0]) == 0 and same(test.left, op)
-        okz = isinstance(tb, ast.Lambda) and const_value(tb.body) == 0
+    from fractions import Fraction as F
+    from optilint.tensoreval import Interp, Dual, EvalError, Raised, _A
+    mod = ctx.need_module("optimism.Math")
+    sq = ctx.need("optimism.Math:safe_sqrt")
+    # the registered rule: the function decorated with safe_sqrt.defjvp (whatever its name)
+    r = None
+    for sc in ctx.repo.functions():
+        if sc.module is mod and sc.kind == "function" and any(src(d).endswith("safe_sqrt.defjvp") for d in getattr(sc.node, "decorator_list", [])):
+            r = sc
+    if r is None:
+        r = ctx.need("optimism.Math:safe_sqrt_jvp")
+    ctx.touch(r)
+    ctx.touch(sq)
+    res = {}
+    for tag, xv in (("x>0", F(4)), ("x>0 tiny", F(1, 10 ** 300)), ("x=0", F(0)), ("x<0", F(-1))):
+        I = Interp(ctx.repo)
+
+        def val(d, xv=xv):
+            env = {"x": xv, "v": F(3)}
+            if any(a not in env for a in d.atoms()):
+                return None
+            try:
+                return _A.eval(d, env)
+            except Exception:
+                return None
+        I.policy = val
+        x, v = Dual(_A.atom("x")), Dual(_A.atom("v"))
         try:
-            fdef = [s_.targets[0].id for s_ in ast.walk(r.node) if isinstance(s_, ast.Assign) and isinstance(s_.targets[0], ast.Name)
-                    and isinstance(s_.value, ast.Call) and (dotted(s_.value.func) or "").split(".")[-1] == "safe_sqrt"]
-            okd = isinstance(fb, ast.Lambda) and bool(fdef) and A.equal(A.lower(fb.body), A.lower(ast.parse(f"0.5/{fdef[0]}", mode="eval").body))
-        except NotPolynomial:
-            okd = False
-        # f is the decorated function at x, df multiplies the tangent
-        from .common import Unifier
-        ur = Unifier(r)
-        okf = len(ur.assigns(f"safe_sqrt({src(op)})", target="f")) == 1
-        fname = ur.actual("f")
-        mul = [s for s in ast.walk(r.node) if isinstance(s, ast.Assign) and isinstance(s.value, ast.BinOp) and isinstance(s.value.op, ast.Mult)
-               and (s.value.right is c or s.value.left is c)]
-        okm = len(mul) == 1
-        dfname = mul[0].targets[0].id if okm and isinstance(mul[0].targets[0], ast.Name) else "df"
-        ok = okt and okz and okd and okf and okm
-        shown = f"test x<=0: {okt}, zero tangent there: {okz}, 0.5/f otherwise: {okd}, f = safe_sqrt(x): {okf}, scaled by the tangent: {okm}"
-    ctx.decide(rule, ok, r, conds[0] if conds else None, construct="safe_sqrt_jvp", detail=shown,
-               bad_detail=f"safe_sqrt's derivative rule is not `v * (0 if x <= 0 else 0.5/safe_sqrt(x))`: {shown}")
-    rets = r.returns()
-    ok = len(rets) == 1 and isinstance(rets[0], ast.Tuple) and len(rets[0].elts) == 2 and bool(conds) and \
-        [src(x) for x in rets[0].elts] == [fname, dfname]
-    ctx.decide(rule, ok, r, rets[0] if rets else None, construct="safe_sqrt_jvp:returns-(primal,tangent)", detail="(f, df)", bad_detail=f"returns `{src(rets[0]) if rets else '?'}`")
+            out = I.call(I.module_value(mod, r.name), [(x,), (v,)], {})
+            f, df = out
+            res[tag] = (I.num(f).a, I.num(df).a)
+        except (EvalError, Raised, TypeError, ValueError, KeyError, AttributeError) as ex:
+            ctx.undecided(rule, r, None, construct=f"safe_sqrt_jvp[{tag}]", detail=f"cannot interpret the derivative rule: {ex}")
+            return
+    try:
+        root = I.num(I.call(I.module_value(mod, "safe_sqrt"), [Dual(_A.atom("x"))], {})).a
+    except (EvalError, Raised, TypeError, ValueError, KeyError, AttributeError) as ex:
+        ctx.undecided(rule, sq, None, construct="safe_sqrt", detail=f"cannot interpret safe_sqrt: {ex}")
+        return
+    vx = _A.atom("v")
+    want_pos = _A.norm(vx / (_A.const(2) * root))
+    bad = []
+    for tag in ("x>0", "x>0 tiny"):
+        if not _A.equal(res[tag][1], want_pos):
+            bad.append(f"for {tag} (sample x = {'4' if tag == 'x>0' else '1e-300'}) the tangent is {res[tag][1]!r}, not v/(2 sqrt(x)) = {want_pos!r}")
+    for tag in ("x=0", "x<0"):
+        if not _A.equal(res[tag][1], _A.const(0)):
+            bad.append(f"for {tag} the tangent is {res[tag][1]!r}, not 0 (the derivative of sqrt is infinite/NaN there and would poison every gradient through it)")
+    ctx.decide(rule, not bad, r, None, construct="safe_sqrt_jvp", detail="tangent = v/(2 sqrt(x)) for x > 0 and 0 for x <= 0",
+               bad_detail="safe_sqrt's derivative rule: " + "; ".join(bad))
+    okp = all(_A.equal(res[t][0], root) for t in res)
+    ctx.decide(rule, okp, r, None, construct="safe_sqrt_jvp:returns-(primal,tangent)", detail="the primal output is safe_sqrt(x) in every situation",
+               bad_detail=f"the primal output of the derivative rule is {[repr(res[t][0]) for t in res]}, not safe_sqrt(x) = {root!r}")
 
 
 def slots(ctx):
